@@ -243,7 +243,8 @@ def is_match_overflow(rec):
     if cr.tool != 'asan' or cr.kind != 'stack-overflow':
         return False
     n = sum(1 for fn, inlib in cr.frames if fn.startswith('RegularExpression::match'))
-    return n >= 8
+    known_frames = [fn for fn, inlib in cr.frames if fn and fn != '?']
+    return n >= 3 or not known_frames       # (the symboliser sometimes gives up on a 8 MB stack)
 
 
 # ---------------------------------------------------------------------------------------------------
